@@ -50,7 +50,7 @@ func init() {
 	register("C15", func(e *Env) {
 		renderPrelude()
 		e.perShard = 60
-		e.rep.Rule = "multi-line templates with exactly one failing statement (8 kinds of runtime failure, 7 kinds of syntax error) placed after 0..5 filler segments (text, multi-line text, tags, multi-line strings, multi-line tags, comments, loops and conditionals that render) at top level or inside if / for / function / block-helper / else bodies; oracle: the error text starts with 'line N:' with N the 1-based line on which the failing tag begins, and prefixing the template with k newlines (k in 1..5 and random) increases N by exactly k and changes nothing else; distinct by template"
+		e.rep.Rule = "multi-line templates with exactly one failing statement (8 kinds of runtime failure, 7 kinds of syntax error) placed after 0..5 filler segments (text, multi-line text, tags, multi-line strings, multi-line tags, comments, loops and conditionals that render) at top level or inside if / for / function / block-helper / else bodies, also preceded in the same body by statements that fail in a tolerated way (unknown identifier inside a function called from a condition or an operand of ! == ||); oracle: the error text starts with 'line N:' with N the 1-based line on which the failing tag begins, and prefixing the template with k newlines (k in 1..5 and random) increases N by exactly k and changes nothing else; distinct by template"
 		binds := append(stdBinds(), Bind{"n", vInt(3)})
 		judge := func(tag, tmpl string, wantLine int, kind string) {
 			c := RCase{Tmpl: tmpl, Binds: binds, Parts: stdParts}
@@ -129,6 +129,34 @@ func init() {
 					sb.WriteString(f.src)
 					sb.WriteString(w.post)
 					judge(f.name, sb.String(), line, f.kind)
+				}
+			}
+		}
+		// earlier statements of the SAME body / top-level tag that fail in a tolerated way (an unknown
+		// identifier inside a function called from a condition or an operand of ! == ||) or that
+		// complete normally on other lines: the line reported is still the failing tag's own
+		inner := []struct {
+			src   string
+			lines int
+		}{
+			{"<%= if (adm()) { %>guest<% } %>\n", 1}, {"<%= !adm() %>\n", 1}, {"<%= adm() == nil %>\n", 1}, {"<%= adm() || true %>\n", 1},
+			{"<%= if (nosuchname) { %>x<% } %>\n", 1}, {"<%= if (false) { %>x<% } else if (adm()) { %>y<% } %>\n", 1},
+			{"<%= ok() %>\n<%= ok() %>\n", 2}, {"<%= for (q) in [1,2] { %>\n<%= if (adm()) { %>g<% } %>\n<% } %>\n", 3},
+		}
+		defs := "<% let adm = fn() {\n return nobodyhome } %>\n<% let ok = fn() { return 1 } %>\n"
+		for _, f := range c15fails {
+			if f.kind != "exec" {
+				continue
+			}
+			for wi, w := range c15wraps {
+				for ii, in := range inner {
+					n++
+					if !e.Thorough() && (n+wi+ii)%3 != 0 {
+						continue
+					}
+					k := 1 + e.Rng.Intn(2)
+					tmpl := defs + w.pre + strings.Repeat(in.src, k) + f.src + w.post
+					judge(f.name+"-after-tolerated", tmpl, 1+3+strings.Count(w.pre, "\n")+k*in.lines, f.kind)
 				}
 			}
 		}
